@@ -473,7 +473,10 @@ def _evidence(mod, prop, tier, seed, t0, cases, axioms, violations, notes, disch
             items = sorted(dist[k].items(), key=lambda kv: -kv[1])
             dist[k] = dict(items[:40])
             dist[k]["…other"] = sum(v for _, v in items[40:])
-    samples = [{"ops": c.lines, "impl": c.h, "model": c.m, "spec": c.s} for c in cases[:3]]
+    def clip(xs):       # evidence stays small: a sample shows the shape of a case, the replay files hold whole ones
+        xs = list(xs or [])
+        return [x if len(x) <= 300 else x[:300] + "...(%d chars)" % len(x) for x in xs[:12]] + (["...(%d more lines)" % (len(xs) - 12)] if len(xs) > 12 else [])
+    samples = [{"ops": clip(c.lines), "impl": clip(c.h), "model": clip(c.m), "spec": clip(c.s)} for c in cases[:3]]
     samples += [{"obligation": n, "axioms": a} for n, a in list(axioms.items())[:3]]
     ev = {
         "property_id": prop, "tier": tier, "seed": seed, "level": "proof",
